@@ -117,7 +117,8 @@ Definition coll_prog (wr : bool) (P me off size count : Z) (data : payload)
   let finish (errval ocount : Z) (buf : payload) : prog :=           (* label `failure:` *)
     Do (Coll K_BARRIER 0 []) (fun _ =>
       let last (hf : bool) := bcast true (P - 1) me errval (fun ev => k (errclass c ev) ocount buf (mkH true hf)) in
-      if me =? 0 then io K_FOPEN [mode_code mode] (fun r => if negb (r1 r =? 0) then abort else last (r0 r =? 1))
+      (* the re-open of rank 0 is judged by the returned stream (`if (mpifile->file == NULL) SC_ABORT`; before the repair: by errno) *)
+      if me =? 0 then io K_FOPEN [mode_code mode] (fun r => if negb (r0 r =? 1) then abort else last (r0 r =? 1))
       else last false) in
   let xfer : prog :=
     (if wr then io K_FWRITE (size :: count :: data) else io K_FREAD [size; count]) (fun rx =>
@@ -131,7 +132,7 @@ Definition coll_prog (wr : bool) (P me off size count : Z) (data : payload)
     if active =? -1 then
       (if negb (me =? 0) then
          io K_FOPEN [mode_code mode] (fun r =>
-           let errval := r1 r in
+           let errval := open_judge (r0 r =? 1) (r1 r) in          (* `errval = (file == NULL) ? errno : 0` *)
            if negb (errval =? 0) then send_next P me errval (finish errval 0 []) else transfer)
        else transfer)
     else if 0 <? active then send_next P me active (finish active 0 [])
@@ -378,7 +379,8 @@ Definition g_turn (wr : bool) (w : world) (s0 : option stream) (q tok size : Z) 
   if tok =? -1 then
     let opened : world * option stream * Z :=
       if q =? 0 then (w, s0, 0) else g_fopen w q mode in
-    let '(w1, so, e1) := opened in
+    let '(w1, so, e0) := opened in
+    let e1 := open_judge (match so with Some _ => true | None => false end) e0 in     (* judged by the stream, not by errno *)
     if negb (e1 =? 0) then Some (w1, mkT e1 0 [])
     else
       match so with
@@ -424,6 +426,61 @@ Definition g_coll (wr : bool) (g : gstate) (size : Z) (args : list carg) : optio
   | None => None
   | Some (w1, ts) =>
     (* barrier; rank 0 opens the file again; the last rank broadcasts its error value *)
+    let '(w2, so, e) := g_fopen w1 0 (if wr then MAppend else MRead) in
+    if (match so with Some _ => false | None => true end) then None          (* `if (mpifile->file == NULL) SC_ABORT` *)
+    else
+      let ev := t_errval (last ts (mkT 0 0 [])) in
+      Some (mkG w2 so (g_ctx g), map (fun t => mkR (errclass CfgC ev) (t_ocount t) (t_buf t)) ts)
+  end.
+
+(* the fallback BEFORE the repair of its four fopen judgements (`errval = errno` after the fopen of a rank > 0, `if (errno != 0)
+   SC_ABORT` at the re-open of rank 0): copies of g_turn / g_turns / g_coll with these two lines, used by no program and by no
+   theorem except the refutation `coll_old_judge_refuted` *)
+Definition g_turn_old (wr : bool) (w : world) (s0 : option stream) (q tok size : Z) (a : carg) : option (world * turn) :=
+  let mode := if wr then MAppend else MRead in
+  if tok =? -1 then
+    let opened : world * option stream * Z := if q =? 0 then (w, s0, 0) else g_fopen w q mode in
+    let '(w1, so, e1) := opened in
+    if negb (e1 =? 0) then Some (w1, mkT e1 0 [])
+    else
+      match so with
+      | None => None
+      | Some s =>
+        let seeked : option (world * stream) :=
+          if wr then Some (w1, s)
+          else let '(w2, s2, r2, _) := g_fseek w1 q s (a_off a) in if r2 =? 0 then Some (w2, s2) else None in
+        match seeked with
+        | None => None
+        | Some (w2, s2) =>
+          let '(w3, s3, oc, e3, buf) :=
+            if wr then let '(w', s', oc, e) := g_fwrite w2 q s2 size (a_count a) (a_data a) in (w', s', oc, e, [])
+            else g_fread w2 q s2 size (a_count a) in
+          let '(w4, r4, _) := g_fflush w3 q in
+          if negb (r4 =? 0) then None
+          else let '(w5, r5, _) := g_fclose w4 q in
+               if negb (r5 =? 0) then None else Some (w5, mkT e3 oc buf)
+        end
+      end
+  else if 0 <? tok then Some (w, mkT tok 0 [])
+  else None.
+Fixpoint g_turns_old (wr : bool) (w : world) (s0 : option stream) (q tok size : Z) (args : list carg)
+  : option (world * list turn) :=
+  match args with
+  | [] => Some (w, [])
+  | a :: rest =>
+    match g_turn_old wr w s0 q tok size a with
+    | None => None
+    | Some (w1, t) =>
+      match g_turns_old wr w1 s0 (q + 1) (tok_out t) size rest with
+      | None => None
+      | Some (w2, ts) => Some (w2, t :: ts)
+      end
+    end
+  end.
+Definition g_coll_old (wr : bool) (g : gstate) (size : Z) (args : list carg) : option (gstate * list rres) :=
+  match g_turns_old wr (g_w g) (g_s0 g) 0 (-1) size args with
+  | None => None
+  | Some (w1, ts) =>
     let '(w2, so, e) := g_fopen w1 0 (if wr then MAppend else MRead) in
     if negb (e =? 0) then None
     else
